@@ -157,3 +157,48 @@ def run(rep, programs):
                 good = mentions_event_field(lo, "order") and T.const_val(hi) == prog.crate("llfree").const("llfree::TREE_ORDER")
     rep.check(good, rule2, "main|lookup", "covering record searched at align_down(pfn, 1 << o) for o in entry.order..=TREE_ORDER",
               "lookup of the covering allocation changed", b.span)
+
+    # ---- the record accepted by the lookup covers the freed block: present and order >= the loop's order
+    cover_ok, cdesc = False, "no `found = Some(align_down(..))` assignment on the free branch"
+    for bi, si, st in b.stmts():
+        if st["k"] != "assign" or st["rv"]["k"] != "aggregate" or "Some" not in str(st["rv"]["kind"]):
+            continue
+        t = tm.rvalue(st["rv"])
+        ads = [x for x in T.walk(t) if x[0] == "call" and x[1] == "llfree::util::align_down"]
+        if not ads:
+            continue
+        apfn = T.canon(ads[0])
+        lv = T.linear(ads[0][2][1])
+        if lv is None or len(lv[0]) != 1 or list(lv[0].keys())[0][0] != "pow2":
+            continue
+        loop_order = list(lv[0].keys())[0][1]      # canonical term of the loop's order variable
+        has_present = has_order = False
+        wrong = []
+        for sd, d in lib.controlling_edges(b, bi):
+            c = tm.operand(b.term(sd)["discr"])
+            pol = lib.bool_edge_polarity(b, sd, d)
+            if c[0] == "call" and c[1].endswith("Allocation::present") and pol:
+                idx = [x for x in T.walk(c) if x[0] == "call" and x[1] == "llfree::util::align_down"]
+                has_present = has_present or (bool(idx) and T.canon(idx[0]) == apfn)
+            if c[0] == "bin" and pol is not None:
+                cmp_ = lib.normalize_cmp(c)
+                if not cmp_:
+                    continue
+                lhs, rel, rhs = cmp_ if pol else lib.negate_rel(cmp_)
+                if rel in ("gt", "ge"):
+                    lhs, rhs, rel = rhs, lhs, {"gt": "lt", "ge": "le"}[rel]
+                big = T.strip_casts(rhs)
+                if big[0] == "call" and big[1].endswith("Allocation::order"):
+                    idx = [x for x in T.walk(big) if x[0] == "call" and x[1] == "llfree::util::align_down"]
+                    same_rec = bool(idx) and T.canon(idx[0]) == apfn
+                    if rel == "le" and same_rec and T.canon(T.strip_casts(lhs)) == loop_order:
+                        has_order = True
+                    else:
+                        wrong.append("%s %s %s" % (T.show(lhs)[:60], rel, T.show(rhs)[:60]))
+        cover_ok = has_present and has_order
+        cdesc = ("record at align_down(pfn, 1 << o) accepted iff present and its order >= o" if cover_ok else
+                 "the record at align_down(pfn, 1 << o) is accepted without requiring present() and order() >= o (the loop's order): "
+                 "a smaller allocation on an aligned ancestor that does not reach the freed pfn is taken as the covering block%s" % (
+                     " [guard found: %s]" % "; ".join(wrong) if wrong else ""))
+        break
+    rep.check(cover_ok, rule2, "main|lookup-covers", cdesc, cdesc, b.span)
